@@ -32,6 +32,12 @@ FIELDS_HELPER_EXPRS = [
     "(any(f.name == 'n0' for f in fields('varint')) or r.n > 5)", "(not fields('float'))",
 ]
 
+ENGINE_SENSITIVE_EXPRS = [
+    "((r.opt < 'b') or (r.s2 not in ['zzz']))", "((r.opt >= 'a') or (r.extra not in ['zzz']))",
+    "((r.s2 not in ['zzz']) or (r.opt < 'b'))", "((r.opt < 'b') or (r.m not in [999]))",
+    "(((r.opt < 'b') and r.b) or (r.extra not in ['', 'a']))",
+]
+
 ADAPTERS = ["stream", "jsonfile", "jsonfile-plain", "avro", "csvfile", "sqlite"]
 
 
@@ -61,7 +67,12 @@ def case_strategy(draw):
                          "full": False})
     expr = draw(selgen.expressions(3))
     form = draw(st.sampled_from(["text", "interpreted", "compiled"]))
-    if draw(st.integers(0, 9)) == 0:
+    if draw(st.integers(0, 11)) == 0:
+        # expressions on which the two engines are known to differ (ordering against an unset value raises in the
+        # compiled one, `not in` on a missing field differs): whichever engine a selector object uses, it must use
+        # it for every record
+        expr = {"src": draw(st.sampled_from(ENGINE_SENSITIVE_EXPRS)), "features": ["engine-sensitive"]}
+    elif draw(st.integers(0, 9)) == 0:
         # the interpreted engine's fields(<type>) helper answers per record type: a good probe for state that a
         # selector object carries from one record to the next (the compiled engine does not have the helper)
         expr = {"src": draw(st.sampled_from(FIELDS_HELPER_EXPRS)), "features": ["helper:fields"]}
